@@ -1548,12 +1548,14 @@ class SymbolicDim(_protocols.SymbolicDimProtocol, _display.PrettyPrintable):
         """Floor divide this dimension by an integer or another SymbolicDim."""
         if self._expr is None:
             return SymbolicDim(None)
+        # Note: floor(a / b) is the exact floor division. SymPy's own ``//`` truncates a
+        # non-integer constant operand first and then gives a wrong quotient.
         if isinstance(other, int):
-            return SymbolicDim(sympy.sympify(self._expr // other))
+            return SymbolicDim(sympy.floor(self._expr / sympy.Integer(other)))
         if isinstance(other, SymbolicDim):
             if other._value is None:
                 return SymbolicDim(None)
-            return SymbolicDim(sympy.sympify(self._expr // other._expr))
+            return SymbolicDim(sympy.floor(self._expr / other._expr))
         return NotImplemented
 
     def __truediv__(self, other: int | SymbolicDim) -> SymbolicDim:
